@@ -37,7 +37,8 @@ RULE = ('random Stim circuits over 1-4 qubit indices (not necessarily contiguous
         'SHIFT_COORDS, REPEAT blocks (count 1-3, nesting <= 2); x noise settings: library defaults or random default + per-qubit T1/T2 '
         '(T2 also > 2*T1), assignment error, operation durations (incl. 0 and measurement shorter than gates); x index maps empty / partial / '
         'full (also naming identifiers without individual entry). Fixed edge cases first. non-trivial: >= 1 measurement, >= 2 blocks, and an '
-        'individual entry reached through the map')
+        'individual entry reached through the map'
+        ' A third of the dress cases first dress the same circuit once with the SAME settings object and the identifiers rotated over the indices (result discarded).')
 
 GATES1 = ['H', 'X', 'Y', 'I', 'SQRT_X', 'SQRT_X_DAG', 'SQRT_Y', 'SQRT_Y_DAG']
 NAMES = ['D1', 'D2', 'D3', 'Z1', 'X1', 'X2']
